@@ -18,6 +18,8 @@ type foreignController struct {
 	Owner   ssa.Value           // root of the GetUID receiver
 	Foreign []cfgx.Edge         // edges on which the controller is foreign
 	Ours    []cfgx.Edge         // edges on which there is no controller or it is the owner
+	NoCtrl  []cfgx.Edge         // edges on which there is no controller
+	SameUID []cfgx.Edge         // edges on which the controller's UID equals the owner's
 }
 
 // foreignControllerTests finds the tests in fn.
@@ -37,8 +39,10 @@ func foreignControllerTests(fn *ssa.Function) []foreignController {
 					t, f := cfgx.CondEdges(bo)
 					if bo.Op == token.NEQ {
 						fc.Ours = append(fc.Ours, f...)
+						fc.NoCtrl = append(fc.NoCtrl, f...)
 					} else {
 						fc.Ours = append(fc.Ours, t...)
+						fc.NoCtrl = append(fc.NoCtrl, t...)
 					}
 					continue
 				}
@@ -61,9 +65,9 @@ func foreignControllerTests(fn *ssa.Function) []foreignController {
 				}
 				t, f := cfgx.CondEdges(bo)
 				if bo.Op == token.NEQ {
-					fc.Foreign, fc.Ours = append(fc.Foreign, t...), append(fc.Ours, f...)
+					fc.Foreign, fc.Ours, fc.SameUID = append(fc.Foreign, t...), append(fc.Ours, f...), append(fc.SameUID, f...)
 				} else {
-					fc.Foreign, fc.Ours = append(fc.Foreign, f...), append(fc.Ours, t...)
+					fc.Foreign, fc.Ours, fc.SameUID = append(fc.Foreign, f...), append(fc.Ours, t...), append(fc.SameUID, t...)
 				}
 			}
 		}
